@@ -68,6 +68,9 @@ def check(ctx, report):
     from .c11 import local_time_apis
     report.rule('C05.R16', 'no local-time API on the way from bytes to object and back (an instant does not move from one cycle to the next)')
     local_time_apis(ctx, report, RULE='C05.R16')
+    # the identification string: an empty comment is not "no comment" (tabulation shared with C07.R6)
+    from .c07 import banner
+    banner(ctx, report, RULE='C05.R17')
     from .c18 import name_value_composers
     name_value_composers(ctx, report, rule='C05.R5')
     from .c08 import txt_chunks
